@@ -232,7 +232,9 @@ func runC36(c *eng.Ctx) {
 		gb := c.Fn("util/convertnhcb:GetHistogramMetricBaseName")
 		for suf, k := range map[string]string{"_bucket": "SuffixBucket", "_sum": "SuffixSum", "_count": "SuffixCount"} {
 			suf, k := suf, k
-			gb.Only("R3", eng.Return("return "+k, func(g *eng.Graph, rs *ast.ReturnStmt) bool { return len(rs.Results) == 2 && eng.ExprString(rs.Results[0]) == k }), "follows the cut of suffix "+suf, func(l eng.Loc) bool {
+			gb.Only("R3", eng.Return("return "+k, func(g *eng.Graph, rs *ast.ReturnStmt) bool {
+				return len(rs.Results) == 2 && eng.ExprString(rs.Results[0]) == k
+			}), "follows the cut of suffix "+suf, func(l eng.Loc) bool {
 				return gb.UnderCond(l, "ok") && eng.ExprString(l.Node.(*ast.ReturnStmt).Results[1]) == "r" && strings.Contains(nodeTextOfEnclosingIf(gb, l), `strings.CutSuffix(s, "`+suf+`")`)
 			})
 		}
@@ -288,7 +290,9 @@ func runC36(c *eng.Ctx) {
 				return nodeText(l.Node) == "p.seriesExemplarEnd = p.tempExemplarCount"
 			})
 			nx.Dom("R6", stmt("p.seriesExemplarPos, p.seriesExemplarEnd = 0, 0"), eng.Or(callText("p.parser.Next()"), p.Call(N+".handleClassicHistogramSeries")))
-			ex.Only("R6", eng.Return("return true", func(g *eng.Graph, rs *ast.ReturnStmt) bool { return len(rs.Results) == 1 && eng.ExprString(rs.Results[0]) == "true" }),
+			ex.Only("R6", eng.Return("return true", func(g *eng.Graph, rs *ast.ReturnStmt) bool {
+				return len(rs.Results) == 1 && eng.ExprString(rs.Results[0]) == "true"
+			}),
 				"serves the emitted histogram's exemplars while emitting, else the window of the series under the cursor", func(l eng.Loc) bool {
 					return ex.UnderCond(l, "p.state == stateEmitting") || ex.UnderCond(l, "p.seriesExemplarPos < p.seriesExemplarEnd")
 				})
@@ -374,7 +378,9 @@ func runC36(c *eng.Ctx) {
 	// ---- R5 "different metric" ----
 	{
 		dm := c.Fn(N + ".differentMetric")
-		retTrue := eng.Return("return true", func(g *eng.Graph, rs *ast.ReturnStmt) bool { return len(rs.Results) == 1 && eng.ExprString(rs.Results[0]) == "true" })
+		retTrue := eng.Return("return true", func(g *eng.Graph, rs *ast.ReturnStmt) bool {
+			return len(rs.Results) == 1 && eng.ExprString(rs.Results[0]) == "true"
+		})
 		dm.Has("R5", retTrue, 2)
 		dm.Only("R5", retTrue, "follows a type other than histogram or a different base name", func(l eng.Loc) bool {
 			return dm.UnderCond(l, "p.typ != model.MetricTypeHistogram") || dm.UnderCond(l, "p.lastHistogramName != name")
